@@ -8,11 +8,14 @@ evaluator: expected results come only from TLC evaluating the specification.
 AST node kinds (every node has k, line, id):
  int str bool unit var let set upd bin list tuple ctor if while for break
  continue ret lam call mcall match show print throw assert paren
+ watch (C27 marker), and with feature "ext": slit (struct literal) dot (field
+ access) letd / ford (tuple destructuring in let / for) try
 """
 import json
 import random
 
 INT, BOOL, STR, LIST, OPT, ENUM, UNIT = "Int", "Bool", "String", "List<Int>", "Option<Int>", "E1", "Unit"
+STRUCT = "P1"          # struct P1 { x: Int, y: String } (feature "ext")
 STR_POOL = ["a", "b", "ab", "x y", "", "q"]
 
 
@@ -27,6 +30,7 @@ class Gen:
         self.fun_sigs = {}       # name -> (param types, ret type)
         self.features = features or {}
         self.uses_enum = False
+        self.uses_struct = False
         self.in_fun = None
         self.has_tracer = False
 
@@ -61,6 +65,8 @@ class Gen:
         if ty == BOOL:
             return self.bool_expr(scope, d)
         if ty == STR:
+            if self.features.get("ext") and d < 2 and r.random() < 0.08:
+                return self.node("dot", e=self.expr(STRUCT, scope, d + 1), f="y")
             v = self.pick_var(scope, STR)
             c = r.random()
             if v and c < 0.4:
@@ -99,6 +105,15 @@ class Gen:
             return self.node("ctor", n="B1", args=[self.int_expr(scope, d + 1)])
         if ty == UNIT:
             return self.node("unit")
+        if ty == STRUCT:
+            self.uses_struct = True
+            v = self.pick_var(scope, STRUCT)
+            if v and r.random() < 0.5:
+                return self.node("var", n=v)
+            fs = [{"n": "x", "e": self.int_expr(scope, d + 1)}, {"n": "y", "e": self.expr(STR, scope, d + 1)}]
+            if r.random() < 0.25:
+                fs.reverse()          # a literal may list the fields in any order
+            return self.node("slit", n="P1", fs=fs)
         raise ValueError(ty)
 
     def paren(self, e):
@@ -110,6 +125,8 @@ class Gen:
             # tr(e) prints e and returns it: makes evaluation order, repetition
             # and loss of a step observable
             return self.node("call", f=self.node("var", n="tr"), args=[self.int_expr(scope, d + 1)])
+        if self.features.get("ext") and d < 3 and r.random() < 0.06:
+            return self.node("dot", e=self.expr(STRUCT, scope, d + 1), f="x")
         c = r.random()
         v = self.pick_var(scope, INT)
         if d >= 3 or c < 0.25:
@@ -190,6 +207,13 @@ class Gen:
             return self.node("show", e=self.node("call", f=self.node("var", n=f), args=[self.int_expr(scope, 2) for _ in range(len(pt) + 1)]))
         if c == 7:
             return self.node("if", c=self.int_expr(scope, 2), t=[self.node("print", v="t")], f=[], inline=False, **{"else": False})
+        if c == 8 and self.features.get("ext"):
+            k = r.randint(0, 2)
+            if k == 0:
+                return self.node("show", e=self.node("dot", e=self.expr(STRUCT, scope, 2), f="z"))
+            if k == 1:
+                return self.node("letd", ns=[self.fresh(), self.fresh()], e=self.node("tuple", xs=[self.int_expr(scope, 2) for _ in range(3)]))
+            return self.node("show", e=self.node("dot", e=self.int_expr(scope, 2), f="x"))
         if c == 8:
             return self.node("show", e=self.node("call", f=self.int_expr(scope, 3), args=[]))
         return self.node("for", n=self.fresh("i"), it=self.int_expr(scope, 2), b=[self.node("print", v="f")])
@@ -211,6 +235,34 @@ class Gen:
             sc = self.shadow_closure(scope)
             if sc:
                 return sc
+        if self.features.get("ext") and r.random() < 0.14:
+            k = r.random()
+            if k < 0.3:
+                name = self.fresh("s")
+                e = self.expr(STRUCT, scope)
+                scope.append((name, STRUCT))
+                return self.node("let", n=name, e=e)
+            if k < 0.45:
+                return self.node("show", e=self.expr(STRUCT, scope))
+            if k < 0.65:
+                a, b = self.fresh(), self.fresh()
+                e = self.node("tuple", xs=[self.int_expr(scope, 1), self.int_expr(scope, 1)])
+                scope.append((a, INT))
+                scope.append((b, INT))
+                return self.node("letd", ns=[a, b], e=e)
+            if k < 0.8 and depth < 3:
+                a, b = self.fresh("i"), self.fresh("i")
+                it = self.node("list", xs=[self.node("tuple", xs=[self.int_expr(scope, 2), self.int_expr(scope, 2)]) for _ in range(r.randint(0, 3))])
+                body = self.stmts(scope + [(a, INT), (b, INT)], r.randint(1, 2), depth + 1, True, in_fun, budget)
+                return self.node("ford", ns=[a, b], it=it, b=body)
+            if depth < 3:
+                body = self.stmts(scope, r.randint(0, 2), depth + 1, in_loop, in_fun, budget)
+                if r.random() < 0.5:
+                    name = self.fresh()
+                    body.append(self.int_expr(scope, 1))
+                    scope.append((name, INT))
+                    return self.node("let", n=name, e=self.node("try", b=body, cb=[self.node("int", v=0)]))
+                return self.node("try", b=body, cb=[self.node("print", v="never")])
         c = r.random()
         if c < 0.22:
             ty = r.choice([INT, INT, INT, BOOL, STR, LIST, OPT, ENUM])
@@ -328,7 +380,7 @@ class Gen:
         """stmts() may return nested lists (let + while); flatten everywhere."""
         if isinstance(n, dict):
             for k, v in list(n.items()):
-                if k in ("t", "f", "b", "main") and isinstance(v, list):
+                if k in ("t", "f", "b", "cb", "main") and isinstance(v, list):
                     n[k] = [self.fix_lists(x) for x in self.flat(v)]
                 elif k == "arms":
                     for a in v:
@@ -377,11 +429,12 @@ class Gen:
             # stops at the loop entry (eval-up-to special case); keep such
             # programs out of session-based checks that are not about that
             main.append(self.node("show", e=self.node("int", v=0)))
-        prog = {"id": pid, "funs": self.funs, "main": main, "uses_enum": False}
+        prog = {"id": pid, "funs": self.funs, "main": main, "uses_enum": False, "uses_struct": False}
         self.fix_lists(prog)
         for f in prog["funs"]:
             f["b"] = [self.fix_lists(x) for x in self.flat(f["b"])]
         prog["uses_enum"] = self.uses_enum or True
+        prog["uses_struct"] = self.uses_struct
         return prog
 
 
@@ -429,6 +482,17 @@ def render_expr(w, e, ind):
         w.w("(")
         render_expr(w, e["e"], ind)
         w.w(")")
+    elif k == "slit":
+        w.w(e["n"] + "{ ")
+        for i, f in enumerate(e["fs"]):
+            if i:
+                w.w(", ")
+            w.w(f["n"] + ": ")
+            render_expr(w, f["e"], ind)
+        w.w(" }")
+    elif k == "dot":
+        render_expr(w, e["e"], ind)
+        w.w("." + e["f"])
     elif k == "watch":
         # transparent marker (C27): the wrapped node is printed as it is
         render_expr(w, e["e"], ind)
@@ -490,6 +554,21 @@ def render_stmt_inline(w, e, ind):
     if k == "let":
         w.w(f"let {e['n']} = ")
         render_expr(w, e["e"], ind)
+    elif k == "letd":
+        w.w("let (" + ", ".join(e["ns"]) + ") = ")
+        render_expr(w, e["e"], ind)
+    elif k == "ford":
+        w.w("for (" + ", ".join(e["ns"]) + ") in ")
+        render_expr(w, e["it"], ind)
+        w.w(" {\n")
+        render_block(w, e["b"], ind + 1)
+        w.w("  " * ind + "}")
+    elif k == "try":
+        w.w("try {\n")
+        render_block(w, e["b"], ind + 1)
+        w.w("  " * ind + "} catch (e9) {\n")
+        render_block(w, e["cb"], ind + 1)
+        w.w("  " * ind + "}")
     elif k == "set":
         w.w(f"{e['n']} = ")
         render_expr(w, e["e"], ind)
@@ -567,6 +646,8 @@ def render(prog):
     w = Writer()
     if prog.get("uses_enum"):
         w.w("enum E1 { A1, B1(Int), C1 }\n")
+    if prog.get("uses_struct"):
+        w.w("struct P1 { x: Int, y: String }\n")
     for f in prog["funs"]:
         f["line"] = w.line
         params = ", ".join(f"{p}: {t}" for p, t in zip(f["ps"], f["pt"]))
